@@ -555,7 +555,8 @@ class Func:
             return set()
         seen.add(l)
         ty = self.locals[l]["ty"] if l < len(self.locals) else ""
-        if not ty.startswith("&mut"):
+        if not (ty.startswith("&mut") or (ty.startswith("(") and "&mut" in ty)):
+            # (tuples of `&mut`, e.g. the halves returned by split_at_mut, are followed too)
             return set()
         out = set()
         for d in defs.get(l, []):
@@ -570,6 +571,11 @@ class Func:
                         out.add(pl[0])
                 elif rv[0] == "use":
                     p2 = op_place(rv[1])
+                    if p2:
+                        out |= self._mutref_origins(p2[0], defs, seen)
+                elif rv[0] == "cast":
+                    # unsizing `&mut [T; N]` -> `&mut [T]` and similar pointer coercions
+                    p2 = op_place(rv[2])
                     if p2:
                         out |= self._mutref_origins(p2[0], defs, seen)
             elif d["kind"] == "call":
